@@ -95,6 +95,19 @@ def handleTxt (args : List String) : String :=
   | ["instant", h] => match unhex h with
     | some cs => showE showDate (parseInstant cs) | none => "BAD"
   | ["instant"] => showE showDate (parseInstant [])
+  | ["rt", ps] => match parsePeriod? ps with
+    | some p =>
+      let t := p.text
+      match parsePeriod t with
+      | .ok q => s!"{tohex t}|{showPeriod q}|{tohex q.text}"
+      | .error _ => s!"{tohex t}|ERR"
+    | none => "BAD"
+  | ["pair", ps, qs] => match parsePeriod? ps, parsePeriod? qs with
+    | some p, some q => s!"{tohex p.text}|{tohex q.text}"
+    | _, _ => "BAD"
+  | ["irt", d] => match parseDate? d with
+    | some c => s!"{tohex (instantText c)}|{showE showDate (parseInstant (instantText c))}"
+    | none => "BAD"
   | ["istr", d] => match parseDate? d with
     | some c => tohex (instantText c) | none => "BAD"
   | _ => "BAD"
